@@ -14,7 +14,7 @@ TEXT = {
  "C03": ("model_checking", "Bounded symbolic execution of CopyTToTerraform emitted by the real plugin for every corpus program into an empty object typed by the oracle: no reachable panic, no error diagnostic, every attribute present with exactly the schema's value type, nothing unknown, created containers carry the schema's element/attribute types - for all struct values within the bounds. The schema's attribute types are the types the converters write (GenSchemaT walked against the oracle, incl. schema_types overrides and type constructors).", "6 C03"),
  "C04": ("model_checking", "CopyTo into an empty object followed by CopyFrom into a fresh struct, all struct values within the bounds: equality up to the documented normal form, one solver obligation per field path.", "6 C04"),
  "C05": ("model_checking", "CopyFrom from arbitrary conforming objects (nulls/unknowns anywhere, with and without payload under Null/Unknown) into two independently arbitrary targets: no error, null/unknown => zero/nil/empty (a null or unknown oneof branch attribute never makes its branch the held one), result independent of prior content and of hidden payload, excluded fields untouched.", "6 C05"),
- "C06": ("model_checking", "CopyFrom on objects corrupted at every depth (deleted / wrong dynamic type / nil interface attributes and list elements, nil Attrs) and CopyTo with attribute types removed at every object level: no reachable panic, exactly one missing diagnostic per missing attribute with the field's path, conversion diagnostics, intact attributes copied as in the uncorrupted run; diag.Diagnostics.Append/Contains and the generated diagnostic types are interpreted from their real SSA. The placeholder attribute of a field-less message is corrupted like any other. Both tiers use lists of at most 2; the thorough tier adds programs and witnesses.", "6 C06"),
+ "C06": ("model_checking", "CopyFrom on objects corrupted at every depth (deleted / wrong dynamic type / nil interface attributes and list elements, nil Attrs) and CopyTo with attribute types removed at every object level: no reachable panic, exactly one missing diagnostic per missing attribute with the field's path, conversion diagnostics, intact attributes copied as in the uncorrupted run; diag.Diagnostics.Append/Contains and the generated diagnostic types are interpreted from their real SSA. The placeholder attribute of a field-less message is corrupted like any other. Both tiers use lists of at most 2; the thorough tier adds programs and witnesses. CopyTo into targets whose message attributes hold null / unknown objects without an Attrs map (as decoded from a state with null blocks): no panic, no error.", "6 C06"),
  "C07": ("model_checking", "CopyFrom with any mix of branch attributes and any prior oneof state: exactly one known non-null branch => that wrapper with that value, none => nil; CopyTo: inactive branches null, active non-null iff payload non-zero; level K: GetOneOfNames / GetOneOfFieldName / GetOneOfTypeName agree for every declaration name.", "6 C07"),
  "C08": ("model_checking", "plan -> CopyFrom -> CopyTo in place for all plans under the property's side conditions: nothing unknown afterwards, known attributes unchanged, list/map null-ness, length and key set kept, decoding again yields the same struct.", "6 C08"),
  "C09": ("model_checking", "two successive in-place CopyTo calls with arbitrary earlier and new struct values, then a third identical call: lengths, elements, key sets, scalar values, pointer-backed null-ness follow the source (children of a nullable embedded message that became nil: null / empty); idempotence by deep equality of the Terraform values.", "6 C09"),
@@ -23,12 +23,12 @@ TEXT = {
  "C12": ("translation_validation", "Differential: the three functions of a selected type generated alone vs together with other selected types / with an extra message / with an extra dependency file are equivalent on all inputs within the bounds; level K: Plugin.write emits exactly the root messages, RegisterMessage appends. The set of emitted functions per `types` selection (18 selections, incl. types embedded in or nested below other selected types) is observed on the real plugin (concrete, accompanying). The text of a type's three functions with and without other selected types (9 cases, incl. a message imported from a dependency file) is compared on the real plugin's output (concrete, accompanying).", "6 C12"),
  "C13": ("translation_validation", "Differential: same-package generation vs generation into a separate target package over the same struct package (struct package named by its import path, or by a bare alias + import_path_overrides; with and without a go_package option), equivalent on all inputs within the bounds, for programs with cast types, enums, oneof wrappers, embedded and map-of-message types; a variant whose file lacks a compared function is a violation. Level K: package qualification of types for all names / paths / modifiers within the string bound. A separate-package file that does not type-check in its package, while the same-package variant of the same descriptor does, is a violation.", "6 C13"),
  "C14": ("model_checking", "Level K with map iteration order as a schedule variable (gosym -maporder: a range over a map visits its entries in any order): every reader of a configuration map (flags, validators, plan modifiers, schema_types, name_overrides, custom_types, suffixes, injected_fields) evaluated under two independent schedules returns the same answer, with the documented precedence; the flag map built from a '+'-separated parameter / from a list does not depend on the order of the entries. ReadConfig on a configuration file with two suffixes entries, run under two schedules, yields the same suffixes and exactly the file's entries. Accompanying (concrete): the real plugin run 8 times per program on identical and list-rotated configurations yields byte-identical responses. Cross-run byte identity for all inputs is outside the technique.", "6 C14"),
- "C15": ("translation_validation", "Differential: converters and schema (incl. descriptions: comments move with their declarations) generated from a descriptor with permuted field / message declaration order (sort off, and sort on) are equivalent to the original on all inputs within the bounds (objects with at most one non-null branch per oneof group). Accompanying (concrete): with sort: true the real plugin's file is byte-identical for the original, reversed and rotated declaration order of 11 programs.", "6 C15"),
+ "C15": ("translation_validation", "Differential: converters and schema (incl. descriptions: comments move with their declarations) generated from a descriptor with permuted field / message declaration order (sort off, and sort on) are equivalent to the original (incl. a second CopyFrom into the targets the first one filled) on all inputs within the bounds (objects with at most one non-null branch per oneof group). Accompanying (concrete): with sort: true the real plugin's file is byte-identical for the original, reversed and rotated declaration order of 11 programs.", "6 C15"),
  "C16": ("model_checking", "Level K: readFromCLI over symbolic parameter strings and a symbolic prior (YAML) configuration: trimmed non-empty parameter wins, '+' separation, ParseBool(ToLower) with fallback; ReadConfig with the file system / YAML parser as an environment (unreadable file, unparsable file, one type, explicit empty list, no types key): errors instead of defaults, CLI types win over YAML types; flagMap.UnmarshalYAML propagates the decoder's error and builds exactly the listed set.", "6 C16"),
  "C17": ("model_checking", "Level K: setCustomType / IsCustomType / GetCustomType for all option, custom_types and suffixes combinations within the string bound; getKind: a custom-type field is of the custom kind whatever else it is. Level G (recording hooks): schema entry of custom fields equals the hook result for the attribute the field would otherwise get; CopyFrom / CopyTo call the hook exactly once with the field / attribute type / current value and store its result (scalar, repeated scalar, and repeated / singular / map message fields declared custom via custom_types); a missing attribute is still a diagnostic. A generated file that references an undefined GenSchema<S>/CopyFrom<S>/CopyTo<S> (the support package defines the hooks under the documented names, incl. a type name with '_') is a violation.", "6 C17"),
  "C18": ("model_checking", "Level K: GetTerraformType returns an error exactly for time/duration fields without configured type and for unmappable proto types, for every type / option / configuration combination. Propagation through BuildField/BuildFields/build is observed on the real pipeline (16 shapes: depth 0-2, list / map contexts, a later selected type, two selected types sharing the offending message, with and without exclude_fields; accompanying, not solver-decided).", "6 C18"),
- "C19": ("model_checking", "Exact equality of every scalar leaf after CopyTo;CopyFrom over the full machine width / full IEEE-754 range (up to the sign of zero, NaN excluded), decided on the emitted cast pairs as bit-vector / floating-point formulas.", "6 C19"),
- "C20": ("model_checking", "Null-ness of every attribute outside list/map elements after CopyTo into an empty object against the field's value (incl. by-value messages and time/duration inside nullable embedded messages), for all struct values within the bounds.", "6 C20"),
+ "C19": ("model_checking", "Exact equality of every scalar leaf after CopyTo;CopyFrom over the full machine width / full IEEE-754 range (up to the sign of zero, NaN excluded), decided on the emitted cast pairs as bit-vector / floating-point formulas. A time / duration held by value as a oneof branch survives the round trip with any payload, zero included.", "6 C19"),
+ "C20": ("model_checking", "Null-ness of every attribute outside list/map elements after CopyTo into an empty object against the field's value (incl. by-value messages and time/duration inside nullable embedded messages), for all struct values within the bounds. The branch a oneof holds follows the same null-iff-zero rule.", "6 C20"),
 }
 
 def main():
